@@ -1286,6 +1286,15 @@ PARTS = {
                                desc="real dsl.Validate on old and new = edit(old), then real ValidateEvolution: verdict class (silent / warning / error) equals the documented class for "
                                     "27 edit kinds, alone and combined with a compatible change of the record they refer to; number pair and vector lengths symbolic; a changed enum value is any pair of "
                                     "different boundary values (change of sign included) of a symbolic base type out of int8/16/32/64, uint8/64")),
+        (G, "gosym_part", dict(name="c06_wrapper_depth", entry="internal/zzverif.C06Wrappers", args_quick=(3, 4), args_thorough=(3, 8),
+                               extra_thorough=("-max-paths", "400000"),
+                               required_sites=("models-validate-and-verdict-without-panic", "unchanged-wrapped-type-is-silent", "wrapped-change-has-the-class-of-the-bare-change"),
+                               assumptions=["the documentation classifies a change of a type by what changes, whatever contains it: the class (error / warning / silent) of P -> Q under a wrapper chain "
+                                            "must be the class the REAL analyser gives the bare change P -> Q in the same position (metamorphic oracle; the classes of bare changes are decided by c06_env_edit_classes)",
+                                            "wrappers: optional, vector, fixed vector of length 3, chains of 1-3 without two adjacent optionals (c06_item_spelling decides that spelling); positions: record "
+                                            "field, plain step, items of a stream step; P, Q over 4 (thorough: 8) primitives"],
+                               desc="a leaf type changes from P to Q (symbolic primitives) underneath a symbolic chain of up to three optional / vector / fixed-vector wrappers, as a record field, a step or "
+                                    "the items of a stream: the real ValidateEvolution gives the wrapped change the verdict class of the bare change, and an unchanged wrapped type stays silent")),
         (G, "gosym_part", dict(name="c06_reference_shapes", entry="internal/zzverif.C06RefShape", args_quick=(0, 1), args_thorough=(1, 1), key_fn=c06_key,
                                extra_thorough=("-max-paths", "100000"),
                                required_sites=("verdict-without-panic", "breaking-change-rejected", "partial-change-accepted", "partial-change-warned",
